@@ -193,7 +193,7 @@ package redisemu
 //@ loop 1 invariant fsKeys == fsVals && fsKeys == i && 0 <= i && i <= fsHdrCount
 //@ loop 1 invariant ds.data == old(ds.data) && ds.dataObjectNumber == old(ds.dataObjectNumber) && data != nil && data.scratch && !data.keyspace && held
 //@ assertbefore "data.store(pkh.Key, sk)" [C19] record.carried: pkh.Key == fsKeyName && sk.id == fsKeyId && sk.flags == fsFlags && sk.expiresAt == fsKeyExpires && sk.lastAccess == fsKeyAccess
-//@ assertbefore "data.store(pkh.Key, sk)" [C19] record.payload: (flagHasOne(fsFlags, FLAG_KEY_TYPE_STRING) ==> istype(sk.payload, []byte)) && (!flagHasOne(fsFlags, FLAG_KEY_TYPE_STRING) && flagHasOne(fsFlags, FLAG_KEY_TYPE_HASH_TABLE|FLAG_KEY_TYPE_SET) ==> istype(sk.payload, *redisDict) && unbox(sk.payload, *redisDict) != nil) && (!flagHasOne(fsFlags, FLAG_KEY_TYPE_STRING|FLAG_KEY_TYPE_HASH_TABLE|FLAG_KEY_TYPE_SET) ==> istype(sk.payload, *storeList) && unbox(sk.payload, *storeList) != nil)
+//@ assertbefore "data.store(pkh.Key, sk)" [C19] record.payload: (flagHasOne(fsFlags, FLAG_KEY_TYPE_STRING) ==> istype(sk.payload, []byte) && unbox(sk.payload, []byte) != nil) && (!flagHasOne(fsFlags, FLAG_KEY_TYPE_STRING) && flagHasOne(fsFlags, FLAG_KEY_TYPE_HASH_TABLE|FLAG_KEY_TYPE_SET) ==> istype(sk.payload, *redisDict) && unbox(sk.payload, *redisDict) != nil) && (!flagHasOne(fsFlags, FLAG_KEY_TYPE_STRING|FLAG_KEY_TYPE_HASH_TABLE|FLAG_KEY_TYPE_SET) ==> istype(sk.payload, *storeList) && unbox(sk.payload, *storeList) != nil)
 //@ ensures [C19] all.records: err == nil ==> fsHdrs == 1 && fsKeys == fsHdrCount && fsVals == fsHdrCount
 //@ ensures [C19] header.restored: err == nil ==> ds.dataObjectNumber == fsHdrObjNo && ds.data != nil && ds.data.removals == int(fsHdrRemovals) && !ds.data.dirty
 //@ ensures [C19] failed.untouched: err != nil ==> ds.data == old(ds.data)
@@ -206,7 +206,7 @@ package redisemu
 //@ trusted calls fn for every entry below root
 //@ callback fn
 //@ prop C19
-//@ requires arg1 != nil
+// (d is nil when the root itself cannot be read)
 //@ modifies *
 //@ endcallback
 //@ modifies *
@@ -218,7 +218,9 @@ package redisemu
 //@ mutexes unknown
 //@ safetyprop none
 //@ modifies *
-//@ assertbefore "dsc := dss.dbs[n].newDataStoreCommand()" [C19] index.strict: parseErr == nil && int64(n) == n64
+//@ assertbefore "dsc := ds.newDataStoreCommand()" [C19] index.strict: parseErr == nil && int64(n) == n64
+// a file whose number is not a database index (<base>.db16) is a stray file, not a reason to stop (C13)
+//@ assertbefore "dsc := ds.newDataStoreCommand()" [C19,C13] index.valid: ds != nil && 0 <= n && n <= 15 && haskey(dss.dbs, n) && dss.dbs[n] == ds
 
 // C19: every database is saved to the file that carries its own index.
 // gNameIndex: the index the last file name was built from.
